@@ -276,22 +276,26 @@ class Engine:
         if str(r) == "sat":
             base = s0.model()
         names = sorted(consts)
+        input_names = {str(t) for t in self.inputs.values() if isinstance(t, z3.ExprRef)}
+
+        def pick(nm, c, k):
+            if z3.is_bool(c):
+                return z3.BoolVal(rng.random() < 0.5)
+            if z3.is_int(c):
+                return z3.IntVal(rng.randint(-3, 6))
+            if nm == "pi":
+                return z3.Q(355, 113)
+            if base is not None and (k % 3 == 2 or (k % 3 == 1 and rng.random() < 0.6)):
+                v = base.eval(c, model_completion=True)
+                if z3.is_rational_value(v):
+                    return v
+            return z3.Q(rng.randint(1, 24) * rng.choice((1, 1, 1, -1)), rng.choice((1, 2, 3, 4, 5, 8, 10)))
+        t_end = time.time() + 45
+        # phase A: assign every free constant
         for k in range(tries):
-            subst = []
-            for nm in names:
-                c = consts[nm]
-                if z3.is_bool(c):
-                    v = z3.BoolVal(rng.random() < 0.5)
-                elif z3.is_int(c):
-                    v = z3.IntVal(rng.randint(-3, 6))
-                else:
-                    if nm == "pi":
-                        v = z3.Q(355, 113)
-                    elif k % 3 == 2 and base is not None:
-                        v = base.eval(c, model_completion=True)
-                    else:
-                        v = z3.Q(rng.randint(1, 24) * rng.choice((1, 1, 1, -1)), rng.choice((1, 2, 3, 4, 5, 8, 10)))
-                subst.append((c, v))
+            if time.time() > t_end:
+                break
+            subst = [(consts[nm], pick(nm, consts[nm], k)) for nm in names]
             ok = True
             for t in terms:
                 v = z3.simplify(z3.substitute(t, *subst))
@@ -303,6 +307,29 @@ class Engine:
                 for c, v in subst:
                     s.add(c == v)
                 if str(s.check()) == "sat":
+                    return s.model()
+        # phase B: assign the registered inputs only and let the solver complete the derived atoms (moduli, roots, logs ...):
+        # with the inputs pinned the remaining constraints are small
+        free = [nm for nm in names if nm not in input_names and nm != "pi"]
+        if free:
+            pinned = [nm for nm in names if nm in input_names or nm == "pi"]
+            for k in range(tries):
+                if time.time() > t_end:
+                    break
+                subst = [(consts[nm], pick(nm, consts[nm], k)) for nm in pinned]
+                rest = []
+                ok = True
+                for t in terms:
+                    v = z3.simplify(z3.substitute(t, *subst))
+                    if z3.is_false(v):
+                        ok = False
+                        break
+                    if not z3.is_true(v):
+                        rest.append(v)
+                if not ok:
+                    continue
+                r, s = self._fresh_check(rest + [c == v for c, v in subst if str(c) != "pi"], (), 3000)
+                if str(r) == "sat":
                     return s.model()
         return None
 
